@@ -90,7 +90,7 @@ func c02Placements() ([]*zr.Program, []string) {
 }
 
 func checkC02(c *Ctx) {
-	c.rule = "programs: (a) bounded-exhaustive: every placement of one transfer statement (输出, 结束循环, 继续循环) in every 2-level nesting of {如果, 否则, 每当, 遍历-list, 遍历-dict}, inside and outside a method, with display marks before/after every transfer; (b) random statement trees (如果/再如/否则, 每当, 遍历 over list/dict literals and variables with 0/1/2 names, break/continue/输出 at any depth, methods, final expression statement, non-boolean conditions). Oracle: reference evaluator (result + ordered display trace); termination by evaluator tick budget 50x the reference step count. distinct_nontrivial = distinct (family, feature set / placement, outcome kind)"
+	c.rule = "programs: (a) bounded-exhaustive: every placement of one transfer statement (输出, 结束循环, 继续循环) in every 2-level nesting of {如果, 否则, 每当, 遍历-list, 遍历-dict}, inside and outside a method, with display marks before/after every transfer; (b) random statement trees (如果/再如/否则, 每当, 遍历 over list/dict literals and variables with 0/1/2 names, break/continue/输出 at any depth, methods, final expression statement, non-boolean conditions); (c) hand-written programs whose 每当 condition binds its result with 得到 (re-tested on every pass, with 继续循环 / 结束循环 / 输出, nested in 遍历 and in a method; expected value and display written down). Oracle: reference evaluator (result + ordered display trace); termination by evaluator tick budget 50x the reference step count. distinct_nontrivial = distinct (family, feature set / placement, outcome kind)"
 	c.assumptions = []string{"generated programs terminate by construction (loops have literal bounds)", "cases the reference marks unspecified (U1-U9 in DESIGN) are skipped and counted"}
 	rng := c.Rand("c02")
 	progs, shapes := c02Placements()
